@@ -222,10 +222,18 @@ class Gen:
 
 
 # ------------------------------------------------------------------ running one history on both sides
+def impl_driver_mode(handlers):
+    if not handlers:
+        return impl_driver(FAMILY)
+    return LineProc([os.path.join(IMPL_BIN, "impl_" + FAMILY), "handlers"], "impl-" + FAMILY + "-h")
+
+
 class Runner:
-    def __init__(self, rep, quirks):
+    def __init__(self, rep, quirks, handlers=False):
         self.rep = rep
-        self.impl = impl_driver(FAMILY)
+        # handlers=True: the same protocol answered through the real RESP handlers (handle_xgroup, handle_xreadgroup,
+        # handle_xack, handle_xclaim, handle_xautoclaim, handle_xpending, handle_xadd, handle_xdel) on a StorageEngine
+        self.impl = impl_driver_mode(handlers)
         self.model = lean_driver(FAMILY)
         self.quirks = quirks
         self.qline = "quirks " + " ".join("1" if quirks[n] else "0" for n in QUIRK_NAMES)
@@ -439,7 +447,7 @@ def main(tier, seed):
         "entry fields are not modelled (ids only); names are ASCII tokens; HashMap iteration order is canonicalised by sorting",
         "FORCE is specified as bypassing the idle test only (Redis' creation of missing PEL entries is outside the property text)",
         "XAUTOCLAIM is compared with the Code model and judged for representation agreement only",
-        "in-process on Stream/ConsumerGroup: the RESP handlers in commands/consumer_groups.rs (argument parsing, reply framing) are thin wrappers and are not exercised here",
+        "two in-process modes: directly on Stream/ConsumerGroup, and (corpus + every third history) through the real RESP handlers of commands/consumer_groups.rs and commands/streams.rs on a StorageEngine; the TCP layer (server.rs dispatch, connection loop) is not exercised here (C05), nor are operations on a missing group/key at handler level (answered `nogroup` by the driver)",
     ]
     ok, log, errs = proof_phase(rep, families=[FAMILY])
     build_harness(FAMILY)
@@ -455,6 +463,7 @@ def main(tier, seed):
     by_shape = {f["match"]: f for f in findings}
 
     run = Runner(rep, quirks)
+    hrun = Runner(rep, quirks, handlers=True)
     disagreements = []       # impl vs Code
     new_failures = []        # (ops, steps, idx)  unexplained oracle failures
     known_seen = {}          # shape -> (ops, idx, step)
@@ -496,8 +505,10 @@ def main(tier, seed):
                               {"finding": by_shape[shape], "replay": replay_obj(ops, steps, len(ops) - 1, quirks)}, no_input=True)
         for ops in EXTRA_CORPUS:
             account(ops, run.run_history(ops), "corpus")
+        for ops in list(CORPUS.values()) + EXTRA_CORPUS:
+            account(ops, hrun.run_history(ops), "corpus-handlers")
         # ---- generated histories
-        n_hist = 260 if tier == "quick" else 6000
+        n_hist = 600 if tier == "quick" else 12000
         for h in range(n_hist):
             hr = r.fork("h%d" % h)
             clean = hr.chance(1, 2)
@@ -510,8 +521,25 @@ def main(tier, seed):
                 ops.append(op)
                 steps.append(st)
             account(ops, steps, "clean" if clean else "quirky")
+            if h % 3 == 0:
+                # the same history through the command handlers
+                account(ops, hrun.run_history(ops), "clean-handlers" if clean else "quirky-handlers")
             if h < 3:
                 rep.sample({"history": ops[:12], "profile": "clean" if clean else "quirky"})
+        if tier == "thorough":
+            # exhaustive small scope (validation of the model, flagged as such): every sequence of <= 4 operations over a
+            # 10-letter alphabet that contains every deviation trigger, after a fixed prefix
+            import itertools
+            prefix = ["add 1-0", "add 2-0", "create 1 0-0"]
+            alphabet = ["add 3-0", "read 1 1 > 1 0", "read 1 2 > - 0", "read 1 1 > - 1", "read 1 2 0-0 - 0", "ack 1 1-0|1-0|9-9",
+                        "claim 1 2 0 0 1-0|2-0", "delc 1 1", "setid 1 0-0", "del 1-0"]
+            cnt = 0
+            for k in range(1, 5):
+                for tup in itertools.product(alphabet, repeat=k):
+                    ops = prefix + list(tup) + ["pending 1"]
+                    account(ops, run.run_history(ops), "exhaustive")
+                    cnt += 1
+            rep.extra["exhaustive_small_scope"] = "all %d sequences of <= 4 operations over %d operations (incl. NOACK, explicit id, SETID back, XDEL) after %s" % (cnt, len(alphabet), prefix)
         # ---- verdict (DESIGN 2.5)
         for sh, (ops, i, s) in known_seen.items():
             f = by_shape[sh]
@@ -546,6 +574,7 @@ def main(tier, seed):
                            "extraction_problems": problems, "replay": replay_obj(small, run.run_history(small), len(small) - 1, quirks)}, no_input=True)
     finally:
         run.close()
+        hrun.close()
     rep.extra["model_disagreements"] = len(disagreements)
     rep.extra["histories_with_unexplained_oracle_failures"] = len(new_failures)
     rep.extra["known_shapes_seen"] = sorted(known_seen)
